@@ -21,6 +21,8 @@ EXPLANATION = (
 
 
 def run(ctx: Ctx) -> None:
+    from .c02 import rule_index_space
+    rule_index_space(ctx)   # the deterministic solver behind this property: emitter register numbers vs tableau positions
     from ..rules import order as _order_seq
     _order_seq.rule_sequence_source(ctx, [("graphiq/circuit/circuit_dag.py", "CircuitDAG._slim_seq")])  # the noisy copy (assign_noise) replays the operations in application order
     solvers.rule_emitter_cap(ctx)
